@@ -169,7 +169,8 @@ def loaders(I, dm=False):
             cc = (code + 5 * rnd) % 16
             samples = [[(bits[r][c] + rnd * (r + c)) % 2 for c in range(n)] for r in range(N)]
             letters = [[LET[(cc >> (2 * ((r + c) % 2))) & 3] for c in range(n)] for r in range(N)]
-            allb = sorted({"".join(l) for l in letters})
+            allb = sorted({"".join(l) for l in letters}, reverse=True)
+            allb = allb + allb[:1]  # as written: not in sorted order, one entry twice
             dim = 2 ** n
             vals = [((cc + 3 * k) % 9 - 4) / 8.0 + 0.001 * k for k in range(2 * dim * dim)]
             with open(paths["samples"], "w") as f:
@@ -207,7 +208,7 @@ def loaders(I, dm=False):
             got_b = np.asarray(out[2]).reshape(N, n).tolist() if n > 1 or N > 1 else [[str(np.asarray(out[2]).reshape(-1)[0])]]
             if [[str(x) for x in row] for row in got_b] != letters:
                 return False, "round %d: bases %s, file has %s" % (rnd, got_b, letters)
-            if sorted(str(x) for x in np.asarray(out[3]).reshape(-1)) != allb:
+            if [str(x) for x in np.asarray(out[3]).reshape(-1)] != allb:
                 return False, "round %d: basis list %s, file has %s" % (rnd, out[3], allb)
             # a caller editing what it got must not affect later loads
             np.asarray(out[2]).reshape(-1)[0] = "Q"
@@ -222,8 +223,8 @@ def jobs(tier):
     J.append(dict(name="site-order-n3", module="checks.c19", scenario="site_order", kwargs=dict(n=3, strings=["XZZ", "ZZY", "XYZ"])))
     # position (i, j) of a density-matrix array the library ACCEPTS (rho= of rotate_rho / rotate_rho_probs) is row i, column j
     # in the same big-endian order (scenario shared with C04; fully symbolic Hermitian rho, so a transposition shows with Y)
-    J.append(dict(name="accepted-rho-positions-n1", module="checks.c04", scenario="explicit", kwargs=dict(n=1, strings=["Y", "X"])))
-    J.append(dict(name="accepted-rho-positions-n2", module="checks.c04", scenario="explicit", kwargs=dict(n=2, strings=["YZ", "XY"])))
+    J.append(dict(name="accepted-rho-positions-n1", module="checks.c04", scenario="explicit", kwargs=dict(n=1, strings=["Y", "X", "Z"])))
+    J.append(dict(name="accepted-rho-positions-n2", module="checks.c04", scenario="explicit", kwargs=dict(n=2, strings=["YZ", "XY", "ZZ"])))
     return J
 
 
